@@ -170,24 +170,30 @@ theorem dup_failure_other_errno_then_newlocale_failure (s : LState) (hwf : WF s)
   rw [if_neg (by simp)]
   rfl
 
+/-- what a finished call shows: (thread handle, live objects, libc calls made, numeric conventions during the body) -/
+def shown : Outcome PRes → Option (Handle × List (Nat × Numeric) × List Ev × Option Numeric)
+  | .ok r => some (r.ctx.st.cur, r.ctx.st.live, r.ctx.trace, r.bodyNumeric)
+  | .fault _ => none
+
 /-- Why `no_early_return` matters: were there a `return` inside the switched region, the model's call
 would come back with the thread still on the temporary locale and that locale still live. -/
 theorem early_return_would_leak :
-    ∃ r, parseEx ⟨.global, [], 0, .comma⟩ true ⟨.ok, true⟩ .earlyReturn 7 = .ok r ∧
-      r.ctx.st.cur = .obj 1 ∧ r.ctx.st.live = [(1, .C)] := by
-  refine ⟨_, by decide, by decide, by decide⟩
+    shown (parseEx ⟨.global, [], 0, .comma⟩ true ⟨.ok, true⟩ .earlyReturn 7) =
+      some (.obj 1, [(1, .C)],
+        [.uselocale none .global, .duplocale .global (some (.obj 0)),
+         .newlocale (some (.obj 0)) (some (.obj 1)), .uselocale (some (.obj 1)) .global], some .C) := by
+  decide
 
 /-- non-vacuity: a thread running under its own comma-decimal locale object (id 0) beside another live
 object, global locale comma as well; a parse that ends in `goto out` with error "number".  The
 hypotheses of `locale_restored` hold and the model computes the six libc calls. -/
 example : WF ⟨.obj 0, [(0, .comma), (1, .C)], 2, .comma⟩ ∧ Exit.gotoOut.feasible ∧
-    (parseEx ⟨.obj 0, [(0, .comma), (1, .C)], 2, .comma⟩ true ⟨.ok, true⟩ .gotoOut errParseNumber).isOk = true ∧
-    ∃ r, parseEx ⟨.obj 0, [(0, .comma), (1, .C)], 2, .comma⟩ true ⟨.ok, true⟩ .gotoOut errParseNumber = .ok r ∧
-      r.ctx.trace = [.uselocale none (.obj 0), .duplocale (.obj 0) (some (.obj 2)),
-        .newlocale (some (.obj 2)) (some (.obj 3)), .uselocale (some (.obj 3)) (.obj 0),
-        .uselocale (some (.obj 0)) (.obj 3), .freelocale (some (.obj 3))] ∧
-      r.bodyNumeric = some .C := by
-  refine ⟨⟨?_, ?_⟩, by decide, by decide, _, by decide, by decide, by decide⟩
+    shown (parseEx ⟨.obj 0, [(0, .comma), (1, .C)], 2, .comma⟩ true ⟨.ok, true⟩ .gotoOut errParseNumber) =
+      some (.obj 0, [(0, .comma), (1, .C)],
+        [.uselocale none (.obj 0), .duplocale (.obj 0) (some (.obj 2)),
+         .newlocale (some (.obj 2)) (some (.obj 3)), .uselocale (some (.obj 3)) (.obj 0),
+         .uselocale (some (.obj 0)) (.obj 3), .freelocale (some (.obj 3))], some .C) := by
+  refine ⟨⟨?_, ?_⟩, by decide, by decide⟩
   · intro i h; cases h; decide
   · decide
 
